@@ -18,7 +18,9 @@ BATCH = 400
 TRIGGERS = ['DR.', 'NO.1', ';P', ':P', 'mR.', 'sT.', 'ST.', 'NO.', 'I<3x', 'dR.', '2019', '1999', '2000', '19', '20', '201', '#1', '#12', '#1a', 'No.1', 'no.1', 'No.', '<3', 'i<3', 'I<3', ';p', ':p', '*0*', 'Mr.', 'St.', 'dr.',
             'www.', 'http://', 'http://www.', '.com', '.org', '.co.uk', '.ru', '.nl', '.se', '.nl.se', '@', '@gmail.com', 'bob@aol.com', 'x.y@mail.ru',
             'google.com', 'site.net/path', '1qaz', 'qwer', '1qaz2wsx', 'zaq1', 'asdf', 'qwerty', '1234', '123;', 'drew', 'fred', 'were', 'tyui', 'ty78',
-            'йцук', '1йцу', 'й123', 'фыва1', '!qaz', 'QWER1', '12qw', 'q1w2', 'poiu0', '0987', 'e3r4', 'wert5', '3edc', 'y6t5']
+            'йцук', '1йцу', 'й123', 'фыва1', '!qaz', 'QWER1', '12qw', 'q1w2', 'poiu0', '0987', 'e3r4', 'wert5', '3edc', 'y6t5',
+            # walks within ONE character class (symbols only / digits only / letters only): adjacent keys, but not a keyboard segment
+            '!@#$', '!@#$%^&*', '<>?:', '-=[]', '()_+', ')(*&', '{}|:', ',./;', '$%^&', '4567', '09876', 'zxcv', 'lkjh']
 WORDS = ['password', 'pass', 'word', 'love', 'super', 'man', 'base', 'ball', 'star', 'wars', 'blue', 'house', 'a', 'ab', 'abc', 'iloveyou', 'dragon',
          'пароль', 'привет', 'любовь', 'señor', 'über', 'été', 'κωδικος', 'test']
 ODD = ['İ', 'ǅ', 'ß', 'ẞ', 'ŉ', 'ﬁ', '١٢٣', '²', '٣', '९', 'Ⅷ', 'á', 'ë', '́', '😀', '𝒜', '𝟙', ' ', ' ', '​', 'ǆ', 'ς', 'Σ', 'ı',
